@@ -32,8 +32,8 @@ RULE = ('Hypothesis-generated configurations (2-4 WMS sources: supported_srs fro
         'meta buffer, bulk meta tiles) and cascaded layers) x 10-14 client requests each (WMS 1.1.1 / 1.3.0 GetMap in 8 SRS '
         'with the bbox placed inside / across / touching within +-3 px / far outside the coverage of an anchor source and '
         'the resolution at 0.25..4 x its limits, non-square pixels, TIME / ELEVATION / DIM_* / custom parameters; TMS and '
-        'WMTS tile requests around the coverage). Judged: every upstream URL (SRS, FORMAT, BBOX inside the coverage extent, '
-        'dimension keys, tile address in the source grid, documented best-SRS rule) and every source.get_map invocation '
+        'WMTS (KVP / REST) tile requests around the coverage and around the edges of the source grid). Judged: every upstream URL (SRS, FORMAT, BBOX inside the coverage extent, '
+        'dimension keys and forwarded values, tile address in the source grid, documented best-SRS rule) and every source.get_map invocation '
         '(coverage / resolution gate => no HTTP call). A request is non-trivial when some source was asked a query that '
         'would have violated its configuration had it been forwarded unchanged (SRS or format not listed, bbox crossing or '
         'outside the coverage extent, resolution outside or within a factor 2 of a limit, dimensions the source does not '
@@ -49,6 +49,8 @@ ASSUMPTIONS = [
     'the best-SRS rule is judged only where the docs define it: preferred_src_proj entry, else first listed SRS of the same kind (projected / geographic)',
     'a combined upstream request (LAYERS=a,b) contacts every configured source whose layers it names',
     'upstream answers are constant-colour images of the requested size (content is the business of C01/C04)',
+    'a forwarded parameter must arrive with the value the client sent (doc: "request parameters that will be forwarded")',
+    'thread schedules are whatever the OS picks (one committed regression case forces a two-thread rendezvous in WMSClient.retrieve)',
 ]
 
 _mplog = logging.getLogger('mapproxy')
@@ -721,6 +723,26 @@ def _combinable(a, b):
             a.get('supported_formats') == b.get('supported_formats') and a.get('coverage') == b.get('coverage'))
 
 
+_open_sigs_memo = []
+
+
+def _open_signatures():
+    """Open findings of this property, read once per process (other builders rewrite their own files in
+    known_findings.d while checks run; a half-written file is retried, it never influences a verdict)."""
+    if not _open_sigs_memo:
+        import json
+        import time
+        for attempt in range(20):
+            try:
+                _open_sigs_memo.append(frozenset(core.open_signatures(PROPERTY)))
+                break
+            except (json.JSONDecodeError, OSError):
+                if attempt == 19:
+                    raise
+                time.sleep(0.25)
+    return _open_sigs_memo[0]
+
+
 def _is_wms_dimension(key):
     k = key.lower()
     return k in ('time', 'elevation') or k.startswith('dim_')
@@ -738,7 +760,7 @@ def apply_exclusions(spec, stats):
       lower case and all other entries in upper case (a dimension in any other spelling, or one parameter spelled
       differently by two sources of the same request, makes MapProxy send the value twice)."""
     counts = {}
-    open_sigs = core.open_signatures(PROPERTY)
+    open_sigs = _open_signatures()
     by = dict((s['name'], s) for s in spec['wms_sources'])
     if SIG_COMBINED_RES in open_sigs:
         for layer in spec['layers']:
@@ -1322,7 +1344,7 @@ def check_case(case, stats):
 
 def shard(shard_no, nshards, seed, tier):
     st_ = core.Stats()
-    n = (640 if tier == 'quick' else 32000) // nshards
+    n = (960 if tier == 'quick' else 32000) // nshards
     core.hyp_search(cases(), check_case, st_, max_examples=n, seed=seed, shrink=False, max_signatures=2)
     return st_
 
